@@ -1017,3 +1017,170 @@ def list_history(g, prog, ncalls=4):
             lo, hi = (0, (1 << 2) - 1)
             hist.append({"op": "with", "o": "o0", "inline": [["e", ["b", r.choice(["<", ">", "!="]), ["f", ["a"]], ["c", r.randint(0, 3)]]]]})
     return hist
+
+
+# ---------------------------------------------------------------------------
+# value-range inference (C14)
+# ---------------------------------------------------------------------------
+
+def bounds_program(rng, max_bits=10, tiny=False):
+    """top-level relational / in constraints against literals, non-random fields, expressions mixing random and
+    non-random fields, other random fields (chains), overlapping / adjacent / unsorted rangelists, signed fields with
+    negative bounds, enum fields, constraints under if/implies (which must not narrow)"""
+    r = rng
+    g = G(rng, max_bits)
+    fields = []
+    if tiny:
+        nb = r.choice([1, 1, 2])
+        widths = [r.choice([2, 3])] if nb == 1 else [2, r.choice([1, 2])]
+        for i, w in enumerate(widths):
+            fields.append({"n": "f%d" % i, "k": "int", "w": w, "s": r.random() < 0.35, "r": True})
+        if r.random() < 0.4:
+            fields.append(g.int_field("k0", False, w=3, signed=r.random() < 0.3))
+    elif r.random() < 0.5:
+        # fewer but wider fields: room for several disjoint ranges
+        fields = [{"n": "f0", "k": "int", "w": r.choice([4, 5, 5, 6]), "s": r.random() < 0.3, "r": True}]
+        fields.append({"n": "f1", "k": "int", "w": r.choice([2, 3, 4]), "s": fields[0]["s"], "r": True})
+        if r.random() < 0.6:
+            kf = g.int_field("k0", False, w=fields[0]["w"], signed=fields[0]["s"])
+            fields.append(kf)
+    else:
+        fields = g.scalar_fields(nrand=r.randint(2, 4), nnon=r.choice([0, 1, 2]), allow_enum=True)
+    prog = {"enums": g.enums, "classes": {"C0": {"base": None, "fields": fields, "blocks": []}}, "top": "C0"}
+    scope = scope_of(prog, "C0")
+    rands = [(p, fd) for p, fd in scope if fd["r"] and fd["k"] == "int"]
+    nons = [(p, fd) for p, fd in scope if not fd["r"] and fd["k"] == "int"]
+    if not rands:
+        return None, g
+
+    def rng_of(fd):
+        w, sg = fd["w"], fd["s"]
+        return (-(1 << (w - 1)), (1 << (w - 1)) - 1) if sg else (0, (1 << w) - 1)
+
+    def top_stmt():
+        p, fd = r.choice(rands)
+        lo, hi = rng_of(fd)
+        c = r.random()
+        op = r.choice(["<", "<=", ">", ">=", "==", "!=", "<", ">"])
+        if c < 0.28:
+            return ["e", ["b", op, ["f", list(p)], ["c", r.randint(lo - 1, hi + 1)]]]
+        if c < 0.40 and nons:
+            same = [(q, qd) for q, qd in nons if qd["s"] == fd["s"]]
+            if same:
+                q, qd = r.choice(same)
+                rhs = ["f", list(q)]
+                if r.random() < 0.5:
+                    rhs = ["b", r.choice(["+", "-"]), rhs, ["c", r.randint(0, 2)]]
+                return ["e", ["b", op, ["f", list(p)], rhs]]
+        if c < 0.52 and len(rands) >= 2:
+            same = [(q, qd) for q, qd in rands if qd["s"] == fd["s"] and q != p]
+            if same:
+                q, qd = r.choice(same)
+                rhs = ["f", list(q)]
+                cc = r.random()
+                if cc < 0.3 and nons and [x for x in nons if x[1]["s"] == fd["s"]]:
+                    k, kd = r.choice([x for x in nons if x[1]["s"] == fd["s"]])
+                    rhs = ["b", "+", rhs, ["f", list(k)]]          # mixes a random and a non-random field
+                elif cc < 0.5:
+                    rhs = ["b", r.choice(["+", "-"]), rhs, ["c", r.randint(0, 2)]]
+                return ["e", ["b", op, ["f", list(p)], rhs]]
+        if c < 0.85:
+            items = []
+            for _ in range(r.randint(1, 4)):
+                if r.random() < 0.5:
+                    items.append(["c", r.randint(lo, hi)])
+                else:
+                    a, b = r.randint(lo, hi), r.randint(lo, hi)
+                    if a > b:
+                        a, b = b, a
+                    items.append(["rng", ["c", a], ["c", b]])     # overlapping, adjacent and unsorted on purpose
+            return ["e", [r.choice(["in", "in", "in", "nin"]), ["f", list(p)], items]]
+        cond = g.boolean(scope, 1, 0)
+        inner = ["e", ["b", op, ["f", list(p)], ["c", r.randint(lo, hi)]]]
+        if r.random() < 0.5:
+            return ["imp", cond, [inner]]
+        return ["if", [[cond, [inner]]], [["e", ["b", "!=", ["f", list(p)], ["c", r.randint(lo, hi)]]]] if r.random() < 0.5 else None]
+    def combo():
+        """several disjoint multi-value ranges on one field combined with lower/upper bounds on the same field
+        (literal, non-random field or another random field) that fall inside one of the ranges"""
+        p, fd = r.choice(rands)
+        lo, hi = rng_of(fd)
+        span = hi - lo + 1
+        out = []
+        if span >= 8:
+            cuts = sorted(r.sample(range(lo, hi + 1), min(6, span // 2) // 2 * 2))
+            items = []
+            for a, b in zip(cuts[0::2], cuts[1::2]):
+                items.append(["rng", ["c", a], ["c", b]] if a != b else ["c", a])
+            r.shuffle(items)
+            out.append(["e", ["in", ["f", list(p)], items]])
+        for _ in range(r.randint(1, 2)):
+            op = r.choice([">", ">=", "<", "<=", ">", ">="])
+            c = r.random()
+            same_r = [(q, qd) for q, qd in rands if qd["s"] == fd["s"] and q != p]
+            same_n = [(q, qd) for q, qd in nons if qd["s"] == fd["s"]]
+            if c < 0.5 or not (same_r or same_n):
+                out.append(["e", ["b", op, ["f", list(p)], ["c", r.randint(lo, hi)]]])
+            elif c < 0.8 and same_r:
+                out.append(["e", ["b", op, ["f", list(p)], ["f", list(r.choice(same_r)[0])]]])
+            elif same_n:
+                out.append(["e", ["b", op, ["f", list(p)], ["f", list(r.choice(same_n)[0])]]])
+        return out
+    FLIP = {"<": ">", "<=": ">=", ">": "<", ">=": "<=", "==": "==", "!=": "!="}
+
+    def maybe_swap(s):
+        """the same relation written with the non-random / literal operand on the left (a bare literal on the left
+        is left to Python's reflected operators, a non-random field or sized literal is a real left operand)"""
+        if s[0] == "e" and s[1][0] == "b" and s[1][1] in FLIP and r.random() < 0.3:
+            e = s[1]
+            L, R_ = e[2], e[3]
+            if R_[0] == "c":
+                if r.random() < 0.5:
+                    w = 8
+                    R_ = ["s", R_[1], w] if (L[0] == "f" and any(fd["s"] for q, fd in rands + nons if list(q) == L[1])) else \
+                        (["u", R_[1], w] if R_[1] >= 0 else R_)
+                return ["e", ["b", FLIP[e[1]], R_, L]]
+            if R_[0] in ("f", "b"):
+                return ["e", ["b", FLIP[e[1]], R_, L]]
+        return s
+    nblk = r.choice([1, 1, 2])
+    for bi in range(nblk):
+        st = [top_stmt() for _ in range(r.randint(1, 2 if tiny else 3))]
+        if r.random() < 0.5:
+            st = combo() + st[:1]
+            r.shuffle(st)
+        st = [maybe_swap(x) for x in st]
+        enums = g.leaves(scope, None, kinds=("enum",))
+        if enums and r.random() < 0.5:
+            e = g.inset(scope, 0)
+            if e:
+                st.append(["e", e])
+        prog["classes"]["C0"]["blocks"].append({"n": "c%d" % bi, "st": st})
+    plant(prog, g, drop_p=0.9)
+    return prog, g
+
+
+def bounds_history(g, prog, ncalls=4):
+    r = g.rng
+    scope = scope_of(prog, "C0")
+    hist = []
+    blocks = [b["n"] for b in prog["classes"]["C0"]["blocks"]]
+    for ci in range(ncalls):
+        for p, fd in scope:
+            if fd["k"] != "int":
+                continue
+            # previous values left in random fields, fresh values in non-random ones
+            if (not fd["r"] and r.random() < 0.6) or (fd["r"] and r.random() < 0.25):
+                hist.append({"op": "set", "o": "o0", "path": list(p), "v": g.rand_val(fd["w"], fd["s"])})
+        if len(blocks) > 1 and r.random() < 0.2:
+            hist.append({"op": "cmode", "o": "o0", "path": [], "blk": r.choice(blocks), "v": r.random() < 0.5})
+        if r.random() < 0.75:
+            hist.append({"op": "randomize", "o": "o0"})
+        else:
+            rands = [(p, fd) for p, fd in scope if fd["r"] and fd["k"] == "int"]
+            p, fd = r.choice(rands)
+            w, sg = fd["w"], fd["s"]
+            lo, hi = (-(1 << (w - 1)), (1 << (w - 1)) - 1) if sg else (0, (1 << w) - 1)
+            hist.append({"op": "with", "o": "o0", "inline": [["e", ["b", r.choice(["<", ">", "<=", ">=", "!="]),
+                                                                     ["f", list(p)], ["c", r.randint(lo, hi)]]]]})
+    return hist
